@@ -85,6 +85,31 @@ class Run:
     def use_file(self, relpath):
         self.files.add(relpath)
 
+    def include(self, other_pid, files, why):
+        """Apply the rules of another property's check to the files this property is anchored in: a change there that breaks one of those
+        rules breaks this property's behaviour as well (e.g. a stale cache behind the beam density).  Findings located in `files`
+        are reported under this property with the rule id '<this>-via-<other rule>'; everything else is left to the other check."""
+        import importlib
+        mod = importlib.import_module('sa.rules.' + other_pid.lower())
+        sub = Run(other_pid, self.tier)
+        try:
+            mod.check(sub)
+        except AnalysisError as e:
+            self.notes.append('NOTE: included rules of %s could not run: %s' % (other_pid, e))
+            return
+        rule = '%s-via-%s' % (self.pid, other_pid)
+        self.describe(rule, 'rules of %s applied to %s (%s)' % (other_pid, ', '.join(sorted(files)), why))
+        known = {k['key'] for k in load_known() if 'key' in k}
+        hit = [f for f in sub.findings if f['file'] in files and f['key'] not in known]
+        nob = sum(r['obligations'] for r in sub.rules.values())
+        self.subject(rule)
+        for f in hit:
+            self.fail(rule, f['key'], f['file'], f['line'], f['what'] + ' [%s]' % f['rule'])
+        if not hit:
+            self.ok(rule, 'rules of %s' % other_pid, '%d obligations of %s evaluated; none violated in the files of this property' % (nob, other_pid))
+        for f in files:
+            self.use_file(f)
+
     # ------------------------------------------------------------------
     def finish(self):
         known = [k for k in load_known() if k.get('property') == self.pid and 'key' in k]
